@@ -27,7 +27,7 @@ O_CREAT = 0o100
 O_TRUNC = 0o1000
 O_ACCMODE = 3
 
-ERRNO = {"EPERM": 1, "ENOENT": 2, "EINTR": 4, "EIO": 5, "EACCES": 13, "EXDEV": 18, "EMFILE": 24, "ENOSPC": 28,
+ERRNO = {"EPERM": 1, "ENOENT": 2, "EINTR": 4, "EPIPE": 32, "EIO": 5, "EACCES": 13, "EXDEV": 18, "EMFILE": 24, "ENOSPC": 28,
          "EROFS": 30, "EDQUOT": 122}
 
 
@@ -279,6 +279,8 @@ def diff_worlds(a, b, ignore=()):
 
 def plan_text(plan):
     lines = ["seed %d" % (plan.get("seed", 1) or 1), "perm %d" % (1 if plan.get("perm") else 0)]
+    if plan.get("stdout_fail"):
+        lines.append("stdout_fail %d" % plan["stdout_fail"])
     for f in plan.get("faults", []):
         parts = ["fault"]
         if f.get("k"):
@@ -369,6 +371,7 @@ class RunResult:
         self.sigactions = []  # (signo, handlerkind)
         self.signals = []     # (signo, k, before/after)
         self.contended = 0
+        self.stdout_failed = False
         self.trace_ok = False
         self.root = None
 
@@ -431,6 +434,8 @@ def parse_trace(path, res):
                 res.signals.append((int(parts[3]), int(parts[4]), parts[7]))
             elif kind == "CONTENDED":
                 res.contended += 1
+            elif kind == "STDOUT_FAIL":
+                res.stdout_failed = True
             continue
         extra = None
         if kind == "READDIR":
